@@ -230,6 +230,25 @@ class World(object):
             out = '\n'.join(_norm_text(x) for x in r['stdout'].split('\n\n'))
             return {'o': _h(out), 'n': len(out), 'e': _h(r['stderr']), 'w': r['written'],
                     'x': (r['exc'] or {}).get('type')}
+        if k == 'scan':
+            # a client's decoder scans a small stream (some messages damaged) - the scanner's skip and
+            # continue logic, failed decodes and metadata-only re-reads become part of the history
+            from pybufrkit.decoder import generate_bufr_message
+            from sim.observe import exc_info
+            parts = []
+            for mi, f, sep in zip(op['ms'], op['faults'], op['seps']):
+                raw = bytes.fromhex(msgs[mi]['hex'])
+                parts.append(bytes.fromhex(sep))
+                parts.append(bufrgen.apply_fault(raw, f) if f else raw)
+            out, x = [], None
+            try:
+                for m in generate_bufr_message(self.clients[op['c']]['dec'], b''.join(parts),
+                                               info_only=(op['mode'] == 'info'), continue_on_error=op['coe']):
+                    out.append(_digest(m, op['mode'] == 'full'))
+            except Exception as e:
+                x = exc_info(e)['type']
+                self.probes['failed_ops'] += 1
+            return {'d': _h(json.dumps(out, sort_keys=True)), 'n': len(out), 'x': x}
         if k == 'lookup':
             g = self.T.TableGroupCacheManager.get_table_group(
                 tables_root_dir=self.roots[op.get('root', 'bundled')], master_table_version=op['version'])
@@ -317,7 +336,7 @@ def execute(plan):
                     w.probes['compiled_evictions'] += gone
                     ev['cevict'] = gone
             ev['st'] = [len(g1), c1]
-            if 'c' in op and op['op'] in ('decode', 'encode', 'decode_bad', 'subset_encode'):
+            if 'c' in op and op['op'] in ('decode', 'encode', 'decode_bad', 'subset_encode', 'scan'):
                 cl = w.clients[op['c']]
                 ev['loaded'] = cl['loaded']
                 mx = cl['cfg'].get('compiled')
@@ -337,7 +356,7 @@ core.register('histsim', execute)
 # ----------------------------------------------------------------------------
 # references
 COMPARED = ('decode', 'decode_info', 'decode_bad', 'render', 'query', 'mdquery', 'script', 'wire', 'encode',
-            'encode_bad', 'subset_encode', 'cli')
+            'encode_bad', 'subset_encode', 'cli', 'scan')
 
 
 def ref_spec(plan, i, compiled_override=None):
@@ -366,6 +385,23 @@ def ref_spec(plan, i, compiled_override=None):
         if 'c' in o2:
             o2['c'] = 1
         chain.append(o2)
+    elif k == 'scan':
+        o2 = dict(op)
+        o2['ms'] = list(range(len(op['ms'])))
+        o2['c'] = 0
+        dcomp, ecomp = clients[op['c']].get('compiled') is not None, False
+        droot, eroot = clients[op['c']].get('root', 'bundled'), 'bundled'
+        chain.append(o2)
+        if compiled_override is not None:
+            dcomp = dcomp and compiled_override
+        ms = [plan['msgs'][i] for i in op['ms']]
+        key = _h(json.dumps([[m['ref'] for m in ms], [_h(m['hex']) for m in ms], dcomp, ecomp, droot, eroot,
+                             [dict((a, b) for a, b in c.items() if a not in ('c', 'ms')) for c in chain]],
+                            sort_keys=True))
+        mini = {'engine': 'histsim', 'family': 'ref', 'seed': 0, 'limit': 50,
+                'clients': [{'compiled': 8 if dcomp else None, 'root': droot}, {'compiled': None, 'root': eroot}],
+                'msgs': ms, 'ops': chain}
+        return key, mini
     else:
         mi = op['m']
         o2 = dict(op)
@@ -558,7 +594,7 @@ def gen_plan(family, seed, msgs, tier='quick', index=None):
     p_fail = rng.choice([0.0, 0.05, 0.15])
     p_ive = rng.choice([0.0, 0.05, 0.3])       # lenient decodes (ignore_value_expectation)
     save_bias = 5 if c08 else 0
-    weights = [('cli', 5), ('decode', 30), ('decode_info', 4), ('decode_bad', 100 * p_fail / 2), ('render', 14), ('query', 8),
+    weights = [('cli', 5), ('scan', 4), ('decode', 30), ('decode_info', 4), ('decode_bad', 100 * p_fail / 2), ('render', 14), ('query', 8),
                ('mdquery', 3), ('script', 3), ('wire', 3), ('encode', 10), ('encode_bad', 100 * p_fail / 4),
                ('subset_encode', 5), ('lookup', 6), ('restart', 2 + save_bias),
                ('invalidate', 1)]
@@ -603,6 +639,23 @@ def gen_plan(family, seed, msgs, tier='quick', index=None):
             handles.append((len(ops), mi, chosen[mi]['nsub'], op['wire']))
         elif k == 'cli':
             op = {'op': 'cli', 'm': mi, 'argv': gen_cli_argv(rng, chosen[mi])}
+        elif k == 'scan':
+            ms = [rng.randrange(len(chosen)) for _ in range(rng.randint(1, 3))]
+            faults = []
+            for x in ms:
+                raw = bytes.fromhex(chosen[x]['hex'])
+                f = None
+                if rng.random() < 0.4 and raw.find(b'BUFR', 1) < 0:
+                    # a compiling client is compared with the interpreted path (C08) only for damage that
+                    # leaves the descriptor list intact
+                    f = streamsim.gen_stream_fault(rng, raw, ['stopsig', 'len+', 'len-'] if c08 else
+                                                   ['stopsig', 'undef_el', 'undef_seq', 'len-', 'len+'])
+                    if f is not None and c08 and f['kind'] == 'len' and f['section'] != 4:
+                        f = None
+                faults.append(f)
+            op = {'op': 'scan', 'c': c, 'ms': ms, 'faults': faults,
+                  'seps': [streamsim.gen_separator(rng)[1].hex() if rng.random() < 0.3 else '' for _ in ms],
+                  'mode': rng.choice(['full', 'full', 'info']), 'coe': rng.random() < 0.8}
         elif k == 'decode_info':
             op = {'op': 'decode_info', 'c': c, 'm': mi, 'ive': rng.random() < p_ive}
         elif k == 'decode_bad':
@@ -706,7 +759,7 @@ def oracle_with(plan, tr, refs):
                 if op['op'] == 'decode':
                     bad_handles.add(i)
         if fam == 'c08' and comp and op['op'] in ('decode', 'encode', 'decode_bad', 'encode_bad', 'subset_encode',
-                                                   'render', 'wire', 'query') and _c08_domain(plan, op):
+                                                   'render', 'wire', 'query', 'scan') and _c08_domain(plan, op):
             keyi, _ = ref_spec(plan, i, compiled_override=False)
             expi = refs.get(keyi)
             if got != expi:
@@ -748,6 +801,9 @@ def _c08_domain(plan, op):
     """C08 quantifies over well-formed templates: a failing decode is compared across the two paths
     only when the damage leaves the descriptor list intact (truncation inside / after the data
     section, stop signature, length of section 4)."""
+    if op['op'] == 'scan':
+        return all(f is None or f['kind'] == 'stopsig' or (f['kind'] == 'len' and f['section'] == 4)
+                   for f in op['faults'])
     if op['op'] != 'decode_bad':
         return True
     f = op['fault']
@@ -805,6 +861,8 @@ def valid(plan):
                 return False
         if 'm' in op and not (0 <= op['m'] < len(plan['msgs'])):
             return False
+        if 'ms' in op and not all(0 <= x < len(plan['msgs']) for x in op['ms']):
+            return False
         if 'c' in op and not (0 <= op['c'] < len(plan['clients'])):
             return False
     return True
@@ -851,7 +909,8 @@ def shrink_candidates(plan):
             p['clients'][ci]['root'] = 'bundled'
             yield p
     # drop unused messages
-    used = sorted(set(op['m'] for op in plan['ops'] if 'm' in op))
+    used = sorted(set(op['m'] for op in plan['ops'] if 'm' in op) |
+                  set(x for op in plan['ops'] if 'ms' in op for x in op['ms']))
     if len(used) < len(plan['msgs']):
         p = json.loads(json.dumps(plan))
         remap = dict((m, i) for i, m in enumerate(used))
@@ -859,7 +918,17 @@ def shrink_candidates(plan):
         for op in p['ops']:
             if 'm' in op:
                 op['m'] = remap[op['m']]
+            if 'ms' in op:
+                op['ms'] = [remap[x] for x in op['ms']]
         yield p
+    # shorten scanned streams
+    for i, op in enumerate(plan['ops']):
+        if op['op'] == 'scan' and len(op['ms']) > 1:
+            for j in range(len(op['ms'])):
+                p = json.loads(json.dumps(plan))
+                for k in ('ms', 'faults', 'seps'):
+                    del p['ops'][i][k][j]
+                yield p
 
 
 # ----------------------------------------------------------------------------
